@@ -1,4 +1,107 @@
-(** C02 — property theorems. *)
+(** C02 — property theorems (statements; proofs are in C02/Proofs.v).
+
+    Every theorem is about the life-cycle automaton instantiated with
+    [gen_tables], the tables regenerated from /repo's source on this run. *)
 From Coq Require Import List NArith Bool Arith.
 From SV Require Import C02.Model C02.Gen C02.Proofs.
 Import ListNotations.
+
+(** 1. one_answer.  Along every input sequence, on an H1 or an H2 frontend and
+    whatever the configured redirect status, the event log is accepted by the
+    monitor [mon_step]: between two recycles of the slot there is at most one
+    verdict (relayed response completed / default answer / abort), the relay
+    starts at most once, and no default answer is installed once bytes of the
+    backend's response are on the wire. *)
+Theorem one_answer :
+  forall (redir : option N) (h2 : bool) (inputs : list input),
+    mon_run (mkM false false) (run gen_tables redir (fresh, init_conn h2) inputs) <> None.
+Proof. exact one_answer_proof. Qed.
+
+(** ... and never none: after any history, when the frontend timer fires the
+    request is settled (verdict emitted, session closed, slot idle, or a complete
+    answer is queued for a slow client); losing the backend (close or backend
+    timer) settles it or re-queues it, the re-queue is bounded by the retry
+    budget, and a queued link is resolved by the next connect. *)
+Theorem answered_or_requeued :
+  forall (redir : option N) (h2 : bool) (history : list input),
+    let x := run_st redir (fresh, init_conn h2) history in
+    settled (nxt redir x IFrontTimeout) = true /\
+    (forall i, (i = IBackClose \/ i = IBackTimeout) ->
+               s_state (fst x) = SLinked -> c_closed (snd x) = false -> c_btimer (snd x) = true ->
+               settled (nxt redir x i) = true \/ s_state (fst (nxt redir x i)) = SLink) /\
+    (forall r, s_state (fst x) = SLink -> c_closed (snd x) = false ->
+               s_state (fst (nxt redir x (IConnect r))) = SLinked \/
+               (s_done (fst (nxt redir x (IConnect r))) = true /\
+                existsb is_default (evs redir x (IConnect r)) = true)) /\
+    (s_attempts (fst x) <= t_retries gen_tables)%nat.
+Proof. exact answered_or_requeued_proof. Qed.
+
+(** 2. status_matches_cause: the generated tables are the documented ones
+    (404 no route, 401 denied, 421 wrong certificate, 429 per-IP limit, 400
+    malformed authority, 503 no usable backend / budget exhausted, 502 backend
+    closed early, 504 backend timeout, 408 client timeout, redirect as
+    configured or 301). *)
+Theorem status_matches_cause :
+  (forall k, t_connect gen_tables k = spec_connect k) /\
+  t_redirect_fallback gen_tables = 301%N /\
+  (forall v, teval v (t_esd gen_tables) = teval v spec_esd) /\
+  (forall s v, teval v (t_ft gen_tables s) = teval v (spec_ft s)) /\
+  (forall v, teval v (t_bt gen_tables) = teval v spec_bt) /\
+  (forall h2 a, t_end_arm gen_tables h2 a = spec_end_arm h2 a) /\
+  t_known_codes gen_tables = spec_known_codes /\
+  t_retries gen_tables = 3%nat /\ t_guard_ge gen_tables = true.
+Proof. exact status_matches_cause_proof. Qed.
+
+(** the status a client sees for each routing/connect failure, as an event *)
+Theorem connect_failure_status :
+  forall redir s c k,
+    s_state s = SLink -> c_closed c = false -> (s_attempts s < 3)%nat ->
+    evs redir (s, c) (IConnect (Some k)) = [EvDefault (documented_status redir k)].
+Proof. exact connect_failure_status_proof. Qed.
+
+(** 3. no_truncated_as_complete: a relayed response is reported complete only
+    if the backend ended it cleanly; the clean flag is raised only by a clean
+    end of message or by EOF on a close-delimited body; and a backend lost
+    mid-body under keep-alive framing yields an abort and phase Error. *)
+Theorem no_truncated_as_complete :
+  forall (redir : option N) (h2 : bool) (history : list input) (i : input),
+    let x := run_st redir (fresh, init_conn h2) history in
+    (existsb is_relay_end (evs redir x i) = true -> s_clean (fst x) = true) /\
+    (s_clean (fst (nxt redir x i)) = true -> s_clean (fst x) = false ->
+       i = IBackEnd \/ (i = IBackClose /\ s_ka (fst x) = false)) /\
+    (i = IBackClose -> s_state (fst x) = SLinked -> s_ka (fst x) = true -> c_closed (snd x) = false ->
+       (s_phase (fst x) = PBody \/ s_phase (fst x) = PChunks \/ s_phase (fst x) = PTrailers) ->
+       existsb is_abort (evs redir x i) = true /\ existsb is_relay_end (evs redir x i) = false /\
+       s_phase (fst (nxt redir x i)) = PError).
+Proof. exact no_truncated_as_complete_proof. Qed.
+
+(** 4. bounded_wait (invariant form): after any history a live session has its
+    frontend timer armed, and whatever is queued and sendable has WRITABLE armed
+    in interest and event, so the queued answer is flushed without waiting for
+    a kernel edge. *)
+Theorem bounded_wait :
+  forall (redir : option N) (h2 : bool) (history : list input),
+    let x := run_st redir (fresh, init_conn h2) history in
+    (c_closed (snd x) = false -> c_ftimer (snd x) = true) /\
+    (c_closed (snd x) = false -> s_pending (fst x) = true ->
+     is_main_phase (s_phase (fst x)) || is_error (s_phase (fst x)) = true -> armed (snd x) = true).
+Proof. exact bounded_wait_proof. Qed.
+
+(** Non-vacuity: concrete histories reach the interesting verdicts. *)
+Example one_answer_nonvacuous :
+  run gen_tables None (fresh, init_conn false)
+      [IReqHead; IConnect None; IReqSent; IBackClose] = [EvDefault 502]
+  /\ run gen_tables None (fresh, init_conn false)
+      [IReqHead; IConnect None; IBackClose; IConnect None; IBackClose; IConnect None; IBackClose; IConnect None]
+     = [EvRetry; EvRetry; EvRetry; EvDefault 503]
+  /\ run gen_tables None (fresh, init_conn true)
+      [IReqHead; IConnect None; IReqSent; IBackHead; IFrontWrite false; IBackClose]
+     = [EvRelayStart; EvAbort true]
+  /\ run gen_tables None (fresh, init_conn false)
+      [IReqHead; IConnect None; IReqSent; IBackHead; IBackEnd; IFrontWrite true]
+     = [EvRelayStart; EvRelayEnd; EvRecycle]
+  /\ run gen_tables None (fresh, init_conn false)
+      [IReqHead; IConnect None; IReqSent; IFrontTimeout] = [EvDefault 504]
+  /\ run gen_tables (Some 308%N) (fresh, init_conn false)
+      [IReqHead; IConnect (Some KHttpsRedirect)] = [EvDefault 308].
+Proof. vm_compute. repeat split; reflexivity. Qed.
